@@ -189,10 +189,13 @@ def playback(copy, h, here, r):
     """Concrete playback: ask Kani for the counterexample as a unit test, put it next to the harness (scratch only),
     and run it with `cargo kani playback` = the harness body executed natively on the REAL code with the concrete values."""
     out = r.get('raw_out') or ''
-    m = re.search(r'(#\[test\]\s*fn (kani_concrete_playback_\w+)\(\)\s*\{.*?\n\})', out, re.S)
-    if not m:
+    # Kani prints one playback test per failed check AND per satisfied cover; take a test generated for a failed
+    # check (`/// Check for `assertion`` / overflow / ...), never a cover witness
+    cands = list(re.finditer(r'((?:///[^\n]*\n)*)\s*(#\[test\]\s*fn (kani_concrete_playback_\w+)\(\)\s*\{.*?\n\})', out, re.S))
+    cands = [c for c in cands if 'Check for `cover`' not in c.group(1)] or cands
+    if not cands:
         return None
-    test_src, test_name = m.group(1), m.group(2)
+    test_src, test_name = cands[0].group(2), cands[0].group(3)
     vals = re.findall(r'//\s*(.*)\n\s*vec!\[([^\]]*)\]', test_src)
     key = hashlib.sha1(test_src.encode()).hexdigest()[:12]
     cex = dict(key=key, playback_test=test_src, values=[dict(comment=c.strip(), bytes=b.strip()) for c, b in vals][:40])
